@@ -759,11 +759,21 @@ class QGen:
             k = "seq"
         if k == "typed-leaf-seq":
             os_ = self.objseq(scope, fuel - 1)
+            evs_ = self.vars_of(scope, lambda t: isinstance(t, TEvt))
+            typed = lambda cls: any(m.kind == "num" and (m.enum or m.tree_type) for m in self.s.classes[cls].methods)
+            good = [c for c in self.s.colls if not c.singleton and (typed(c.element) or any(ov.kind == "objvec" and typed(ov.cls) for ov in self.s.classes[c.element].methods))]
+            good = good + [c for c in good if any(ov.kind == "objvec" and typed(ov.cls) for ov in self.s.classes[c.element].methods)] * 2
+            if evs_ and good and (os_ is None or self.chance(3, 4)):
+                # (a collection whose elements - or their object vectors' elements - have such a method)
+                c_ = self.pick(good)
+                b_ = self.pick(c_.banks)
+                self.uses.append((c_.accessor, b_))
+                os_ = (f"{self.pick(evs_)[0]}.{c_.accessor}({b_!r})", c_.element)
             ms = [m for m in self.s.classes[os_[1]].methods if m.kind == "num" and (m.enum or m.tree_type)] if os_ else []
             # ... or one level deeper (a 2-D column): the objects' own object vectors mapped to the typed method
             deep = [(ov, m) for ov in self.s.classes[os_[1]].methods if ov.kind == "objvec" for m in self.s.classes[ov.cls].methods
                     if m.kind == "num" and (m.enum or m.tree_type)] if (os_ and self.f.seq2d) else []
-            if deep and self.chance(1, 2):
+            if deep and self.chance(2, 3):
                 ov, m = self.pick(deep)
                 v = self.newvar(scope, "j")
                 w = self.newvar(self.bind(scope, v, TObj(os_[1])), "k")
